@@ -102,8 +102,10 @@ func dtypeOf(name string) tensor.Dtype {
 		return tensor.Float64
 	case "c64":
 		return tensor.Complex64
-	case "c128":
+	case "c128", "c128r":
 		return tensor.Complex128
+	case "c64r":
+		return tensor.Complex64
 	case "b":
 		return tensor.Bool
 	case "str":
@@ -143,6 +145,10 @@ func tokVal(dt string, k int) interface{} {
 		return complex(float32(k), float32(-k))
 	case "c128":
 		return complex(float64(k), float64(-k))
+	case "c64r": // real-valued complex tokens, for products
+		return complex(float32(k), float32(0))
+	case "c128r":
+		return complex(float64(k), float64(0))
 	case "b":
 		return ((k%2)+2)%2 == 1
 	case "str":
